@@ -65,6 +65,15 @@ def generate(rng, tier, index):
         # make site competition / parent-phase nucleation likely
         if len(cfg['phases']) > 1 and rng.random() < 0.4:
             cfg['phase_params'][cfg['phases'][1]]['parents'] = [cfg['phases'][0]]
+        if len(cfg['phases']) > 1 and rng.random() < 0.35:
+            # every phase competes for the same kind of site (the occupancy of the other phases must count)
+            site = rng.choice(['bulk', 'grain boundaries', 'grain edges', 'grain corners', 'grain corners'])
+            for ph in cfg['phases']:
+                pp_ = cfg['phase_params'][ph]
+                pp_['site'] = site
+                pp_['shape'], pp_['ar'] = 'sphere', 1.0
+                if site in W.SITE_KMAX and cfg['gbEnergy'] / (2 * pp_['gamma']) >= 0.95 * W.SITE_KMAX[site]:
+                    pp_['gamma'] = round(cfg['gbEnergy'] / (2 * 0.8 * W.SITE_KMAX[site]), 4)
         if rng.random() < 0.5:
             cfg['nuc_density'] = {'grainSize': rng.choice([0.5, 1, 10, 100]), 'aspectRatio': rng.choice([1, 1, 2]), 'dislocationDensity': rng.choice([5e12, 1e14, 1e15])}
             if rng.random() < 0.4:
@@ -228,11 +237,12 @@ class NucleationMonitor:
         # ('dislocations' is exempt from the N0-based clauses: kawin resolves that site type through the bulk branch, see DESIGN.md observations)
         if site != 'dislocations' and v > (N0 + par) * (1 + 1e-12):
             F.add('C14.site_budget', f't={t}: available {site} sites for phase {p} = {v!r} exceed the total N0 + parent-surface sites = {N0 + par!r}', site=site, clause='upper')
-        if len(x) == 1 and site != 'dislocations':
-            # single precipitate phase: the consumed sites are unambiguous
-            ref = max(N0 - occ, 0.0)
+        if site != 'dislocations' and 'dislocations' not in self.sites:
+            # documented rule: all sites - sites used up by every phase nucleating on the same kind of site + sites on parent precipitates
+            # (configurations with a dislocation-sited phase are left to the bounds above: that site type resolves through the bulk branch)
+            ref = max(N0 - occ + par, 0.0)
             if abs(v - ref) > 1e-9 * max(abs(ref), N0 * 1e-12, 1e-300) + 1e-6:
-                F.add('C14.site_budget', f't={t}: available {site} sites = {v!r}, reference N0 - occupied = {ref!r} (N0={N0!r}, occupied={occ!r})', site=site, clause='single_phase')
+                F.add('C14.site_budget', f't={t}: available {site} sites = {v!r}, reference N0 - occupied by all phases on this site type + parent sites = {ref!r} (N0={N0!r}, occupied={occ!r}, parent sites={par!r})', site=site, clause='reference')
         # decreases as precipitates occupy sites: if every phase's occupancy moments grew (and no parent surface is involved), the value must not rise
         key = ('sites', p)
         prev = self.prev.get(key)
